@@ -291,6 +291,44 @@ func runFrame(d *Desc, send func(stepMsg)) (made bool) {
 	return true
 }
 
+// runSweep: every op is one sequence of single-column keys (values 1), fed as one
+// batch into a fresh frame, dumped, then compacted.
+func runSweep(d *Desc, send func(stepMsg)) {
+	for _, o := range d.Ops {
+		seq := make([]int64, len(o.Rows))
+		for i, r := range o.Rows {
+			seq[i] = r[0]
+		}
+		var f *exec.VerifC09Frame
+		var out [][]int64
+		var dm dump
+		ok := guard(func() {
+			f = exec.VerifC09MakeCombiningFrame(typOf(1), addFn, d.Init, d.Scratch)
+			f.Combine(rowsFrame(1, o.Rows))
+			dm = takeDump(f)
+			out = frameRows(f.Compact())
+		})
+		if !ok {
+			send(stepMsg{term: vf.App("XBad", vf.ZList(seq)), problems: "panic"})
+			continue
+		}
+		col := func(rows [][]int64, c int) []int64 {
+			xs := make([]int64, len(rows))
+			for i, r := range rows {
+				xs[i] = r[c]
+			}
+			return xs
+		}
+		p := ""
+		if outputWrong(1, o.Rows, out, false) {
+			p = "rows-wrong:compact"
+		}
+		send(stepMsg{term: vf.App("XE", vf.ZList(seq), vf.ZList(col(dm.slots, 0)), vf.ZList(col(dm.slots, 1)), vf.IntList(dm.hits),
+			vf.Z(int64(dm.len)), vf.Z(int64(dm.cap)), vf.ZList(col(out, 0)), vf.ZList(col(out, 1))),
+			problems: p, nontriv: dm.cap != d.Init || collided(1, dm)})
+	}
+}
+
 func runCombiner(d *Desc, send func(stepMsg)) (made bool, endTerm string) {
 	restore := exec.VerifC09SetSizes(d.Init, d.Scratch)
 	defer restore()
@@ -419,9 +457,13 @@ func runCase(d Desc) result {
 	go func() {
 		var f fin
 		send := func(m stepMsg) { ch <- m }
-		if d.Level == "frame" {
+		switch d.Level {
+		case "frame":
 			f.made = runFrame(&d, send)
-		} else {
+		case "sweep":
+			runSweep(&d, send)
+			f.made = true
+		default:
 			f.made, f.end = runCombiner(&d, send)
 		}
 		done <- f
@@ -481,7 +523,16 @@ loop:
 			}
 			k++
 		}
-		if d.Level == "frame" {
+		if d.Level == "sweep" {
+			if cur != nil {
+				seq := make([]int64, len(cur.Rows))
+				for i, r := range cur.Rows {
+					seq[i] = r[0]
+				}
+				steps = append(steps, vf.App("XBad", vf.ZList(seq)))
+			}
+			f.made = true
+		} else if d.Level == "frame" {
 			if cur != nil && cur.K == "combine" {
 				steps = append(steps, vf.Tuple(vf.App("FCombine", batchTerm(&d, cur.Rows)), "FHung"))
 			} else if cur != nil {
@@ -495,7 +546,9 @@ loop:
 			f.made, f.end = true, "EHung"
 		}
 	}
-	if d.Level == "frame" {
+	if d.Level == "sweep" {
+		term = vf.App("CaseX", vf.App("mkXC", ht, vf.Nat(d.Init), vf.Nat(d.Scratch), vf.List(steps)))
+	} else if d.Level == "frame" {
 		term = vf.App("CaseF", vf.App("mkFC", ht, vf.Nat(d.NK), vf.Nat(d.Init), vf.Nat(d.Scratch), vf.Bool(f.made), vf.List(steps)))
 	} else {
 		how := map[string]string{"reader": "HReader", "writeto": "HWriteTo", "discard": "HDiscard"}[d.How]
@@ -518,6 +571,9 @@ loop:
 	}
 	if !f.made {
 		sig = "c09/refused-capacity"
+	}
+	if d.Level == "frame" && d.Scratch == 0 {
+		sig = "c09/zero-scratch"
 	}
 	return result{term: term, sig: sig, nontriv: nontriv, hung: hung,
 		obs: fmt.Sprintf("%d steps, made=%v, %s", len(steps), f.made, sig)}
@@ -720,6 +776,12 @@ func genBadCapacity(r *vf.Rand) Desc {
 	d := Desc{Level: []string{"frame", "combiner"}[r.Intn(2)], NK: 1, Init: []int{3, 5, 6, 12}[r.Intn(4)], Scratch: 4,
 		Target: 2, How: "reader", Gen: "bad-capacity"}
 	d.Ops = []Op{{K: "combine", Rows: [][]int64{{1, 1}}}}
+	if d.Level == "frame" && r.Chance(1, 3) { // a frame without scratch space: Combine divides by zero
+		d.Init, d.Scratch, d.Gen = 8, 0, "zero-scratch"
+		if r.Bool() {
+			d.Ops[0].Rows = nil
+		}
+	}
 	return d
 }
 
@@ -803,26 +865,78 @@ func collidingAlphabet(n int) []int64 {
 	return out
 }
 
-func exhaustiveDescs() (ds []Desc, note string) {
-	mk := func(seq []int64, gen string) Desc {
+const sweepChunk = 250
+
+func exhaustiveDescs() (ds []Desc, note string, total int) {
+	add := func(alpha []int64, maxLen int, repeats bool, gen string) {
+		cur := Desc{Level: "sweep", NK: 1, Init: 8, Scratch: 8, Gen: gen}
+		flush := func() {
+			if len(cur.Ops) > 0 {
+				ds = append(ds, cur)
+				cur = Desc{Level: "sweep", NK: 1, Init: 8, Scratch: 8, Gen: gen}
+			}
+		}
+		enumerate(alpha, maxLen, repeats, func(seq []int64) {
+			rows := make([][]int64, len(seq))
+			for i, k := range seq {
+				rows[i] = []int64{k, 1}
+			}
+			cur.Ops = append(cur.Ops, Op{K: "seq", Rows: rows})
+			total++
+			if len(cur.Ops) == sweepChunk {
+				flush()
+			}
+		})
+		flush()
+	}
+	col := collidingAlphabet(7)
+	// (a) all sequences of length <= 7 over 3- and 4-key alphabets of colliding keys
+	add(col[:3], 7, true, "exh-all-3")
+	add(col[:4], 7, true, "exh-all-4")
+	// (b) all repetition-free sequences of length <= 7 over 7 colliding keys: every
+	//     insertion order of 6 and 7 distinct keys, i.e. every way to cross the load threshold
+	add(col, 7, false, "exh-inj-7")
+	// (c) all sequences of length <= 7 over {0 (the zero key), 1, 2}
+	add([]int64{0, 1, 2}, 7, true, "exh-all-012")
+	note = fmt.Sprintf("exhaustive at capacity 8 (each sequence = one batch into a fresh frame, then Compact): all sequences of length<=7 over colliding alphabets %v and %v and over [0 1 2]; all repetition-free sequences of length<=7 over %v (same home slot mod 16); %d sequences in sweep cases of <=%d", col[:3], col[:4], col, total, sweepChunk)
+	return
+}
+
+// quickSweeps: a slice of the exhaustive space for the quick tier: all sequences
+// of length <= 5 over three colliding keys, and a random sample of
+// repetition-free sequences of 6 and 7 colliding keys (they cross the threshold).
+func quickSweeps(r *vf.Rand) (ds []Desc) {
+	col := collidingAlphabet(7)
+	cur := Desc{Level: "sweep", NK: 1, Init: 8, Scratch: 8, Gen: "sweep-all-3-len5"}
+	enumerate(col[:3], 5, true, func(seq []int64) {
 		rows := make([][]int64, len(seq))
 		for i, k := range seq {
 			rows[i] = []int64{k, 1}
 		}
-		return Desc{Level: "frame", NK: 1, Init: 8, Scratch: 8, Compact: true, Gen: gen,
-			Ops: []Op{{K: "combine", Rows: rows}, {K: "compact"}}}
+		cur.Ops = append(cur.Ops, Op{K: "seq", Rows: rows})
+		if len(cur.Ops) == sweepChunk {
+			ds = append(ds, cur)
+			cur = Desc{Level: "sweep", NK: 1, Init: 8, Scratch: 8, Gen: "sweep-all-3-len5"}
+		}
+	})
+	if len(cur.Ops) > 0 {
+		ds = append(ds, cur)
 	}
-	col := collidingAlphabet(7)
-	// (a) all sequences of length <= 7 over 3- and 4-key alphabets of colliding keys
-	enumerate(col[:3], 7, true, func(s []int64) { ds = append(ds, mk(s, "exh-all-3")) })
-	enumerate(col[:4], 7, true, func(s []int64) { ds = append(ds, mk(s, "exh-all-4")) })
-	// (b) all repetition-free sequences of length <= 7 over 7 colliding keys: every
-	//     insertion order of 6 and 7 distinct keys, i.e. every way to cross the load threshold
-	enumerate(col, 7, false, func(s []int64) { ds = append(ds, mk(s, "exh-inj-7")) })
-	// (c) all sequences of length <= 7 over {0 (the zero key), 1, 2}
-	enumerate([]int64{0, 1, 2}, 7, true, func(s []int64) { ds = append(ds, mk(s, "exh-all-012")) })
-	note = fmt.Sprintf("exhaustive at capacity 8: all sequences of length<=7 over colliding alphabets %v and %v and over [0 1 2]; all repetition-free sequences of length<=7 over %v (same home slot mod 16)", col[:3], col[:4], col)
-	return
+	smp := Desc{Level: "sweep", NK: 1, Init: 8, Scratch: 8, Gen: "sweep-inj-7-sample"}
+	for n := 0; n < 120; n++ {
+		perm := append([]int64{}, col...)
+		for i := len(perm) - 1; i > 0; i-- {
+			j := r.Intn(i + 1)
+			perm[i], perm[j] = perm[j], perm[i]
+		}
+		perm = perm[:r.Range(6, 7)]
+		rows := make([][]int64, len(perm))
+		for i, k := range perm {
+			rows[i] = []int64{k, 1}
+		}
+		smp.Ops = append(smp.Ops, Op{K: "seq", Rows: rows})
+	}
+	return append(ds, smp)
 }
 
 func main() {
@@ -844,9 +958,9 @@ func main() {
 		}
 	} else {
 		root := vf.NewRand(opts.Seed)
-		nf, ns, nc, nb := 130, 90, 160, 6
+		nf, ns, nc, nb := 130, 90, 160, 10
 		if opts.Tier == "thorough" {
-			nf, ns, nc, nb = 1300, 600, 1600, 12
+			nf, ns, nc, nb = 1300, 600, 1600, 30
 		}
 		nf, ns, nc = nf*opts.Scale, ns*opts.Scale, nc*opts.Scale
 		for i := 0; i < nf; i++ {
@@ -869,12 +983,15 @@ func main() {
 		for i := 0; i < nl*opts.Scale; i++ {
 			descs = append(descs, genLong(root.Split(), "frame", ll), genLong(root.Split(), "combiner", ll))
 		}
+		if opts.Tier != "thorough" {
+			descs = append(descs, quickSweeps(root.Split())...)
+		}
 		if opts.Tier == "thorough" {
-			ex, note := exhaustiveDescs()
+			ex, note, total := exhaustiveDescs()
 			descs = append(descs, ex...)
 			out.Extra["exhaustive"] = true
 			out.Extra["exhaustive_space"] = note
-			out.Extra["exhaustive_cases"] = len(ex)
+			out.Extra["exhaustive_sequences"] = total
 		}
 	}
 	aborted := 0
